@@ -1,5 +1,5 @@
 #!/bin/bash
 # run every quick (or thorough) check sequentially; print the summary lines
-cd /verif
+cd "$(dirname "$0")/.."
 tier=${1:-quick}
 for i in $(seq -w 1 20); do ./check C$i $tier 2>&1 | grep "^\[C$i\] tier\|VIOLATION\|KNOWN-FINDING\|harness error" ; done
